@@ -320,6 +320,14 @@ pub fn delivers_plan_v(dir: &str, fi: usize, variant: usize) -> Option<String> {
     let shown = |p: &str| p.replace('\\', "/BACKSLASH/").replace('\n', "<LF>").replace('\t', "<TAB>").replace('\0', "<NUL>");
     let (s1, d1) = (stamp(&sr), stamp(&dr));
     if s1 != s0 { return Some(format!("{tag} the source tree was modified (C04)")); }
+    // C15 "excludes protect": whatever the run did and however it ended, a destination path the patterns exclude is as it was
+    let excludes: Vec<String> = flags.iter().enumerate().filter(|(i, _)| *i > 0 && flags[i - 1] == "--exclude").map(|(_, x)| x.to_string()).collect();
+    if let Some(p) = d0.keys().find(|p| crate::plan::is_excluded(Path::new(p.as_str()), &excludes) && d1.get(*p) != d0.get(*p)) {
+        return Some(format!("{tag} `{}` is excluded by the patterns and was {} by the run (exit {:?}) - excludes protect (C15)", shown(p), if d1.contains_key(p) { "changed" } else { "removed" }, out.status.code()));
+    }
+    if !flags.contains(&"--delete") { if let Some(p) = d0.keys().find(|p| !d1.contains_key(*p) && !s0.contains_key(*p)) {
+        return Some(format!("{tag} `{}` exists only at the destination and was removed by a run without --delete (C15)", shown(p)));
+    } }
     if out.status.code() != Some(0) {
         // the property allows a run to fail - then an error must have been reported, and still nothing outside the plan
         // (other than staging names) may have been touched: every destination path is as before or as planned
@@ -357,8 +365,9 @@ pub fn plan_search(as_twin: bool) -> i32 {
         cases += 1;
         if let Some(what) = delivers_plan(dir, fi) { println!("WITNESS {{\"kind\":\"oneway-plan\",\"dir\":{di},\"flags\":{fi},\"what\":\"{}\"}}", what.replace('"', "'").replace('\n', " ")); }
     } }
-    // an empty source (flag sets: none, --delete, --delete --exclude '*.log') and a file-vs-directory clash (none, --exclude 'sub dir')
-    for (di, dir) in DIRS.iter().enumerate() { for (variant, fi) in [(1usize, 0usize), (1, 1), (1, 2), (2, 0), (2, 3)] {
+    // an empty source (flag sets: none, --delete, --delete --exclude '*.log') and a file-vs-directory clash (none, --exclude 'sub dir',
+    // --delete, --delete --exclude '*.log': the directory in the way holds an excluded file)
+    for (di, dir) in DIRS.iter().enumerate() { for (variant, fi) in [(1usize, 0usize), (1, 1), (1, 2), (2, 0), (2, 3), (2, 1), (2, 2)] {
         cases += 1;
         if let Some(what) = delivers_plan_v(dir, fi, variant) { println!("WITNESS {{\"kind\":\"oneway-plan\",\"dir\":{di},\"flags\":{fi},\"variant\":{variant},\"what\":\"{}\"}}", what.replace('"', "'").replace('\n', " ")); }
     } }
